@@ -198,3 +198,23 @@ package redisemu
 //@ ensures [C19] header.restored: err == nil ==> ds.dataObjectNumber == fsHdrObjNo && ds.data != nil && ds.data.removals == int(fsHdrRemovals) && !ds.data.dirty
 //@ ensures [C19] failed.untouched: err != nil ==> ds.data == old(ds.data)
 //@ ensures [C19] failed.untouched.ids: err != nil ==> ds.dataObjectNumber == old(ds.dataObjectNumber)
+
+// C19: at start-up only files named exactly <base>.db<n> (n a decimal index
+// with nothing after it) are loaded; in particular the temporary file of an
+// interrupted save, <base>.db<n>.tmp, is never taken for a snapshot.
+//@ func path/filepath.WalkDir
+//@ trusted calls fn for every entry below root
+//@ callback fn
+//@ prop C19
+//@ requires arg1 != nil
+//@ modifies *
+//@ endcallback
+//@ modifies *
+
+//@ func newDataStoreSet
+//@ prop C19
+// (partial contract: the constructor runs before the set is shared with any other goroutine, so its lock and guard obligations are not examined)
+//@ only C19
+//@ safetyprop none
+//@ modifies *
+//@ assertbefore "dsc := dss.dbs[n].newDataStoreCommand()" [C19] index.strict: parseErr == nil && int64(n) == n64
